@@ -21,6 +21,12 @@ Tie.  Three kinds of cases:
           its block), nested re-entrant streams, and one thread per computation with a token
           handed round-robin inside every read()/readinto() so that the blocks of the
           computations strictly alternate (deterministic, no sleeps, bounded waits)
+          ... and steps where the caller edits a dict that digest()/hexdigest()/bytehexdigest()
+          returned earlier (the returned-container channel)
+  stream  MultiHash.from_file on every stream class (BytesIO, BytesIO subclass, real file buffered /
+          unbuffered, BufferedReader over a raw stream, raw stream, duck types, mmap) brought to a
+          position other than 0 by read / read1 / readinto / readline / seek / seek from the end /
+          write without rewinding; the reference is the REMAINING bytes
 and the same through the extracted model.  The model is run with the FREE hash
 oracle Hsym (its "digest" is  algo ":" bytes-fed); the harness applies hashlib to
 what the model says was fed, so hashlib is the oracle H on both sides - which is
@@ -71,13 +77,29 @@ RULE = ("lengths {0,1,2} + {k*32768+d | k in 0..3, d in -2..2} + random <= 100 k
         "(one thread per part, a token handed round-robin inside every read()/readinto() so that blocks strictly alternate; "
         "non-stream parts run whole in one turn; no sleeps, every wait bounded, a time-out is reported as Deadlock); every "
         "execution (outer, each inner repetition, each thread) must give the digests/length of its own bytes and agree with the "
-        "model's plain run of that part.  non-trivial = data >= 1 byte and (>= 2 chunks or an entry point other than "
-        "MultiHash.from_data), scripts: >= 1 byte fed and (>= 1 copy or >= 2 hashers), overlap: >= 2 non-empty parts; "
+        "model's plain run of that part.  STREAM-STATE cases: MultiHash.from_file on a stream that is not (necessarily) at "
+        "position 0: stream classes io.BytesIO, a BytesIO subclass, a real file opened 'rb' (buffered) and unbuffered (FileIO), "
+        "io.BufferedReader over a raw stream, a raw io.RawIOBase (readinto only), duck types offering read only / read+readinto, "
+        "mmap; position reached by read(p), read1, readinto, readline, seek(p), seek from the end, seek relative, seek beyond the "
+        "end, after a write without rewinding (BytesIO / 'w+b' file opened empty, written: nothing remains) or write then seek(p); "
+        "p in {0, 1, len-1, len, len/2, random, inside the second block for streams longer than one block}; declared length = "
+        "the remaining size, the whole size, or None; optional name subsets and short reads.  The reference is the digests and "
+        "length of the REMAINING bytes (what a plain fobj.read() would return); the model is unchanged - it hashes the byte "
+        "string it is given, i.e. the remaining bytes; the stream must be exhausted afterwards (the model's loop runs up to the "
+        "empty read; compared as correspondence, not as part of the property).  RETURNED-CONTAINER channel: the dicts returned "
+        "by digest()/hexdigest()/bytehexdigest() (and by model.Content.hashes()) are edited by the caller (clear, pop, overwrite "
+        "every value, add keys, rotate values; a read-only container is tolerated) - in the chunked route after each of four "
+        "successive accessor calls, in scripts ('m' steps) between further update()/copy() calls, between two successive calls "
+        "without update, on the hasher, on its copy(), and before a fresh hasher is fed the same bytes; every later result must "
+        "be that of the bytes fed (the model has no such step: its digests are a pure function of the bytes fed so far).  "
+        "non-trivial = data >= 1 byte and (>= 2 chunks or an entry point other than "
+        "MultiHash.from_data), scripts: >= 1 byte fed and (>= 1 copy or >= 2 hashers), overlap: >= 2 non-empty parts, stream: position > 0; "
         "distinct = distinct case")
 TRUSTED = ["hashlib objects behave as 'bytes fed so far' (update appends, digest is a function of the bytes fed, copy() "
            "is independent) - the modelling convention of DESIGN.md section 3",
-           "file objects honour the reader contract (non-empty prefixes of the remaining bytes, at most the requested "
-           "size, empty only at EOF); the file is not modified between os.path.getsize/lstat and the reads",
+           "file objects honour the reader contract (non-empty prefixes of the REMAINING bytes - from the stream's current "
+           "position -, at most the requested size, empty only at EOF); the file is not modified between "
+           "os.path.getsize/lstat and the reads",
            "lib/Sha1.v is only an instance of the hash oracle (validated against hashlib end to end on every run)",
            "that git's blob id is sha1('blob <len>\\0' + data) is validated with `git hash-object --stdin`, not proved"]
 ASSUMPTIONS = ["the length declared to MultiHash(length=) is the real length on the routes the property speaks about "
@@ -185,8 +207,53 @@ def write_tmp(data, name="f"):
 
 
 # ------------------------------------------------------------------ implementation side
+def _hexv(v):
+    return v.hex() if isinstance(v, (bytes, bytearray)) else "not-bytes:" + repr(v)[:40]
+
+
 def mh_res(d):
-    return {"length": d.get("length"), "d": {k: v.hex() for k, v in d.items() if k != "length"}}
+    return {"length": d.get("length"), "d": {str(k): _hexv(v) for k, v in d.items() if k != "length"}}
+
+
+def mh_res_form(d, form):
+    """canonical form of what digest() / hexdigest() / bytehexdigest() returned (a snapshot: later edits of d do not show)"""
+    if form == "hex":
+        return {"length": d.get("length"), "d": {k: str(v) for k, v in d.items() if k != "length"}}
+    if form == "bytehex":
+        return {"length": d.get("length"), "d": {k: bytes(v).decode("ascii") if isinstance(v, (bytes, bytearray)) else
+                                                 "not-bytes:" + repr(v)[:40] for k, v in d.items() if k != "length"}}
+    return mh_res(d)
+
+
+def call_form(h, form):
+    return {"hex": h.hexdigest, "bytehex": h.bytehexdigest}.get(form, h.digest)()
+
+
+EDITS = ["clear", "pop", "set", "add", "swap"]
+
+
+def scribble(d, kind):
+    """what a caller may do to a dict it got back; a read-only or otherwise defensive container is fine: errors are ignored"""
+    try:
+        if kind == "clear":
+            d.clear()
+        elif kind == "pop":
+            d.pop(next(iter(d)))
+        elif kind == "set":
+            for k in list(d):
+                v = d[k]
+                d[k] = -1 if isinstance(v, int) else "0" * len(v) if isinstance(v, str) else b"\0" * len(v)
+        elif kind == "add":
+            d["sha1"] = b"x"
+            d["length"] = 12345
+            d["extra"] = None
+        elif kind == "swap":
+            ks = list(d)
+            vs = [d[k] for k in ks]
+            for k, v in zip(ks, vs[1:] + vs[:1]):
+                d[k] = v
+    except Exception:
+        pass
 
 
 def guard(f):
@@ -240,7 +307,14 @@ def impl_routes(c):
         h = MH(hash_names=names, length=declared)
         for ch in chunks_of(data, c["cuts"]):
             h.update(ch)
-        return mh_res(h.digest())
+        again = []
+        for k, form in enumerate(("bin", "hex", "bytehex", "bin")):      # every accessor, each result edited by the caller
+            d = call_form(h, form)
+            again.append(mh_res_form(d, form))
+            scribble(d, EDITS[(len(data) + k) % len(EDITS)])
+        r = mh_res(h.digest())
+        r["again"] = again
+        return r
     res["ch"] = guard(chunked)
     if c["kind"] == "names":
         return res
@@ -253,7 +327,12 @@ def impl_routes(c):
 
     def mc():
         o = model.Content.from_data(data)
-        return content_res(lambda k: getattr(o, k), o.length)
+        h1 = o.hashes()
+        first = {k: v.hex() for k, v in h1.items()}
+        scribble(h1, EDITS[len(data) % len(EDITS)])                       # the caller edits the dict hashes() returned
+        r = content_res(lambda k: getattr(o, k), o.length)
+        r["hashes"] = [first, {k: v.hex() for k, v in o.hashes().items()}]
+        return r
     res["mc"] = guard(mc)
 
     def ms():
@@ -327,7 +406,7 @@ def impl_routes(c):
 
 def impl_script(c):
     from swh.model.hashutil import MultiHash
-    vs, evs = [], []
+    vs, evs, returned = [], [], []
     scratch = bytearray(64)
     for op in c["ops"]:
         try:
@@ -348,8 +427,15 @@ def impl_script(c):
             elif op[0] == "c":
                 vs.append(vs[op[1]].copy())
                 evs.append("done")
+            elif op[0] == "m":            # the caller edits the dict an earlier digest()/hexdigest()/bytehexdigest() returned
+                if op[1] < len(returned):
+                    scribble(returned[op[1]], op[2])
+                evs.append("done")
             else:
-                evs.append(mh_res(vs[op[1]].digest()))
+                form = op[2] if len(op) > 2 else "bin"
+                d = call_form(vs[op[1]], form)
+                returned.append(d)
+                evs.append(mh_res_form(d, form))
         except Exception as e:
             evs.append({"error": exc_class(e)})
             break
@@ -580,11 +666,122 @@ def impl_overlap(c):
     return res
 
 
+# ---- stream state: from_file on a stream that is NOT at position 0 -------------------------------
+class SubBytesIO(io.BytesIO):              # a user subclass of BytesIO (no override)
+    pass
+
+
+# which ways of reaching a position each stream class supports
+STREAM_HOWS = {
+    "bytesio": ["read", "seek", "seek_end", "seek_cur", "read1", "readline", "readinto", "write", "write_seek"],
+    "bytesio_sub": ["read", "seek", "seek_end", "seek_cur", "read1", "readline", "readinto", "write", "write_seek"],
+    "file": ["read", "seek", "seek_end", "seek_cur", "read1", "readline", "readinto", "write", "write_seek"],
+    "file_unbuf": ["read", "seek", "seek_end", "readline", "readinto"],
+    "buffered": ["read", "read1", "readline", "readinto"],          # io.BufferedReader over a raw stream, not seekable
+    "raw": ["read", "readline", "readinto"],
+    "read": ["read"],
+    "both": ["read", "readinto"],
+    "mmap": ["read", "seek", "seek_end", "readline"],
+}
+
+
+def remaining_of(c, data):
+    """the bytes a plain fobj.read() would return once the stream of the case has been positioned: a pure function
+    of the case (every positioning below is made deterministic)"""
+    how, p = c["how"], c["p"]
+    if how == "write":
+        return b""
+    if how == "readline":
+        i = data.find(b"\n")
+        return data[i + 1:] if i >= 0 else b""
+    return data[p:]
+
+
+def open_stream(c, data):
+    """build the stream of the case and bring it to its position; returns (stream, closer)"""
+    import mmap
+    cls, how, p = c["cls"], c["how"], c["p"]
+    closers = []
+    written = how in ("write", "write_seek")           # opened empty, written, not rewound
+    if cls in ("bytesio", "bytesio_sub"):
+        K = io.BytesIO if cls == "bytesio" else SubBytesIO
+        f = K() if written else K(data)
+    elif cls in ("file", "file_unbuf", "mmap"):
+        path = os.path.join(tmpdir(), "st")
+        if written:
+            f = open(path, "w+b")
+        else:
+            with open(path, "wb") as o:
+                o.write(data)
+            f = open(path, "rb", buffering=0) if cls == "file_unbuf" else open(path, "rb")
+        closers.append(f.close)
+        if cls == "mmap":
+            f = mmap.mmap(f.fileno(), 0, access=mmap.ACCESS_READ)
+            closers.insert(0, f.close)
+    else:
+        f = make_stream(cls, data, c.get("sched"), lambda phase: None)
+    if written:
+        f.write(data)
+        if how == "write_seek":
+            f.seek(p)
+    elif how == "seek":
+        f.seek(p)
+    elif how == "seek_end":
+        f.seek(p - len(data), 2)
+    elif how == "seek_cur":
+        f.seek(0)
+        f.seek(p, 1)
+    elif how == "readline":
+        f.readline()
+    elif how in ("read", "read1", "readinto"):
+        got = 0
+        while got < p:                                 # loop: short reads are legal, the position reached is exactly min(p, len)
+            if how == "readinto":
+                k = f.readinto(bytearray(p - got))
+            else:
+                k = len(getattr(f, how)(p - got))
+            if not k:
+                break
+            got += k
+
+    def close():
+        for cl in closers:
+            try:
+                cl()
+            except Exception:
+                pass
+    return f, close
+
+
+def stream_declared(c, rem, data):
+    d = c.get("length", "real")
+    return len(rem) if d == "real" else len(data) if d == "whole" else d
+
+
+def impl_stream(c):
+    from swh.model import hashutil
+    data = data_of(c["data"])
+    rem = remaining_of(c, data)
+    names = part_names(c)
+    f, close = open_stream(c, data)
+    try:
+        r = guard(lambda: mh_res(hashutil.MultiHash.from_file(f, hash_names=names, length=stream_declared(c, rem, data)).digest()))
+        try:
+            r["rest_after"] = len(f.read())            # what is left in the stream after the call
+        except Exception as e:
+            r["rest_after"] = exc_class(e)
+    finally:
+        close()
+    return {"ff": r}
+
+
 def impl(c):
     if c["kind"] == "script":
         return impl_script(c)
     if c["kind"] == "overlap":
         return impl_overlap(c)
+    if c["kind"] == "stream":
+        return impl_stream(c)
     return impl_routes(c)
 
 
@@ -608,9 +805,20 @@ def requests(c):
                 ops.append("n:%s:%s" % (enc_names(op[1]), enc_len(op[2])))
             elif op[0] == "u":
                 ops.append("u:%d:%s" % (op[1], hx(bytes.fromhex(op[2]))))
+            elif op[0] == "m":
+                continue                  # digests are a pure function of the bytes fed: edits of returned dicts do not exist in the model
             else:
                 ops.append("%s:%d" % (op[0], op[1]))
         return ["script sym new " + ("/".join(ops) if ops else "~")]
+    if c["kind"] == "stream":
+        # the model hashes the byte string it is given: here the bytes that REMAIN in the stream
+        data = data_of(c["data"])
+        rem = remaining_of(c, data)
+        names = c.get("names")
+        if names is None:
+            from swh.model.hashutil import DEFAULT_ALGORITHMS
+            names = ["length"] + sorted(DEFAULT_ALGORITHMS)
+        return ["run sym ff %s %s %s ~ -" % (enc_names(names), enc_len(stream_declared(c, rem, data)), hx(rem) if rem else "~")]
     if c["kind"] == "overlap":
         # the model is a pure function of each part's bytes: one plain run per part is the reference for every
         # (outer, inner, concurrent) execution of that part
@@ -692,6 +900,8 @@ def model(c, resp):
         return {"events": evs}
     if c["kind"] == "overlap":
         return {"parts": [parse_run(r) for r in resp]}
+    if c["kind"] == "stream":
+        return {"sym": parse_run(resp[0])}
     out = {"sym": parse_run(resp[0])}
     k = 1
     if c.get("sched"):
@@ -766,6 +976,7 @@ def compare(c, ires, mres):
         return "model failed: " + mres["model_failure"][:200]
     if c["kind"] == "script":
         ie, me = ires["events"], mres["events"]
+        ie = [ev for ev, op in zip(ie, c["ops"]) if op[0] != "m"]
         if len(ie) != len(me):
             return "script: %d events in the implementation, %d in the model (%s / %s)" % (len(ie), len(me), ie[-1:], me[-1:])
         for k, (a, b) in enumerate(zip(ie, me)):
@@ -790,6 +1001,15 @@ def compare(c, ires, mres):
         return None
     if "model_failure" in mres["sym"]:
         return "model failed: " + mres["sym"]["model_failure"][:200]
+    if c["kind"] == "stream":
+        rem = remaining_of(c, data_of(c["data"]))
+        why = cmp_route("ff on a %s positioned by %s(%d)" % (c["cls"], c["how"], c["p"]), mres["sym"]["ff"], ires["ff"], rem)
+        if why:
+            return why
+        if "error" not in ires["ff"] and ires["ff"].get("rest_after") != 0:
+            return ("from_file left the stream unexhausted (read() afterwards: %s); the model's loop runs up to the empty read"
+                    % ires["ff"].get("rest_after"))
+        return None
     data = data_of(c["data"])
     sym = mres["sym"]
     for code, i in ires.items():
@@ -842,8 +1062,15 @@ def oracle(c, ires, mres):
         return oracle_script(c, ires)
     if c["kind"] == "overlap":
         return oracle_overlap(c, ires)
+    if c["kind"] == "stream":
+        return oracle_stream(c, ires)
     data = data_of(c["data"])
     n = len(data)
+    r = ires.get("ch", {})
+    for j, a in enumerate(r.get("again", [])):
+        if a != {"length": r["length"], "d": r["d"]}:
+            return ("chunked update: call %d of digest()/hexdigest()/bytehexdigest()/digest() on the same hasher disagrees with the "
+                    "final digest() (each returned dict was edited by the caller): %s" % (j, str(a)[:200]))
     if c.get("length", "real") != "real" and c["length"] != n:
         return None        # a wrong / missing declared length is outside the property's domain
     names = c.get("names")
@@ -874,6 +1101,10 @@ def oracle(c, ires, mres):
                 want_len = n
             if r["length"] != want_len:
                 return "entry point %s: length %s, expected %s" % (code, r["length"], want_len)
+            for j, a in enumerate(r.get("again", [])):
+                if a != {"length": r["length"], "d": r["d"]}:
+                    return ("entry point %s: call %d of digest()/hexdigest()/bytehexdigest()/digest() on the same hasher disagrees with "
+                            "the final digest() (each returned dict was edited by the caller): %s" % (code, j, str(a)[:200]))
         elif code == "hg":
             if r["d"]["sha1_git"] != blob_id:
                 return "hash_git_data(data, 'blob') is %s, git's blob id is %s" % (r["d"]["sha1_git"], blob_id)
@@ -890,12 +1121,39 @@ def oracle(c, ires, mres):
                     return "entry point %s: %s is %s, expected %s" % (code, a, r["d"][a], spec_digest(a, len(src), src).hex())
             if r["length"] != len(src):
                 return "entry point %s: length %s, expected %s" % (code, r["length"], len(src))
+            for j, hh in enumerate(r.get("hashes", [])):
+                if hh != {a: r["d"][a] for a in ("sha1", "sha1_git", "sha256", "blake2s256")}:
+                    return "entry point %s: hashes() call %d (the first result was edited by the caller) is %s" % (code, j, str(hh)[:200])
             if "hash" in r and r["hash"] != r["d"]["sha1_git"]:
                 return "entry point %s: node hash differs from sha1_git" % code
             if code == "df":
                 ml = c.get("maxlen")
                 if r["d"]["absent"] != ("01" if ml is not None and n > ml else "00"):
                     return "from_disk.Content.from_file: status does not reflect max_content_length"
+    return None
+
+
+def oracle_stream(c, ires):
+    """hashing a content from a file object = hashing the bytes the file object still has to deliver"""
+    data = data_of(c["data"])
+    rem = remaining_of(c, data)
+    declared = stream_declared(c, rem, data)
+    names = set(part_names(c))
+    r = ires["ff"]
+    where = "from_file on a %s of %d bytes positioned at %d by %s (%d bytes remain)" % (c["cls"], len(data), len(data) - len(rem),
+                                                                                       c["how"], len(rem))
+    if "error" in r:
+        return "%s raised %s" % (where, r["error"])
+    if set(r["d"]) != names - {"length"}:
+        return "%s: digests %s for names %s" % (where, sorted(r["d"]), sorted(names))
+    for a, dg in r["d"].items():
+        if a.endswith("_git") and declared != len(rem):
+            continue       # a declared length that is not the real one: *_git digests are outside the domain
+        if dg != spec_digest(a, len(rem), rem).hex():
+            whole = " (it is the digest of the WHOLE buffer)" if dg == spec_digest(a, declared or 0, data).hex() and rem != data else ""
+            return "%s: %s is %s, expected %s%s" % (where, a, dg, spec_digest(a, len(rem), rem).hex(), whole)
+    if r["length"] != (len(rem) if "length" in names else None):
+        return "%s: length %s, expected %s" % (where, r["length"], len(rem) if "length" in names else None)
     return None
 
 
@@ -914,6 +1172,8 @@ def oracle_script(c, ires):
             return "step %d (%s) raised %s" % (k, op[0], ev["error"])
         if not valid_new:
             return "MultiHash(%s, length=%s) was accepted" % (op[1], op[2])
+        if op[0] == "m":
+            continue
         if op[0] == "n":
             sim.append({"names": set(op[1]), "len": op[2], "data": b""})
         elif op[0] == "u":
@@ -922,12 +1182,19 @@ def oracle_script(c, ires):
             sim.append(dict(sim[op[1]]))
         else:
             s = sim[op[1]]
-            if s["len"] is not None and s["len"] != len(s["data"]) and any(a.endswith("_git") for a in s["names"]):
-                continue       # declared length not (yet) the real one: *_git digests are outside the domain
+            skip = set()
+            if s["len"] is not None and s["len"] != len(s["data"]):
+                skip = {a for a in s["names"] if a.endswith("_git")}   # declared length not (yet) the real one: outside the domain
             want = {a: spec_digest(a, s["len"] or 0, s["data"]).hex() for a in s["names"] if a != "length"}
+            if set(ev["d"]) == set(want):
+                for a in skip:
+                    want[a] = ev["d"][a]
             if ev["d"] != want:
                 bad = sorted(a for a in set(want) | set(ev["d"]) if want.get(a) != ev["d"].get(a))
-                return "step %d: digest of hasher %d differs on %s after %d bytes" % (k, op[1], bad, len(s["data"]))
+                edited = " (a dict returned earlier was edited by the caller)" if any(o[0] == "m" for o in c["ops"][:k]) else ""
+                return "step %d: %s of hasher %d differs on %s after %d bytes%s" % (
+                    k, {"hex": "hexdigest()", "bytehex": "bytehexdigest()"}.get(op[2] if len(op) > 2 else "", "digest()"),
+                    op[1], bad, len(s["data"]), edited)
             if ev["length"] != (len(s["data"]) if "length" in s["names"] else None):
                 return "step %d: length %s after %d bytes" % (k, ev["length"], len(s["data"]))
     return None
@@ -1147,6 +1414,92 @@ def gen(rng, tier):
             c["buf"] = b
         cases.append(c)
     cases += gen_overlap(rng, quick, universe)
+    cases += gen_streams(rng, quick, universe)
+    cases += gen_result_edits(rng, quick, universe)
+    return cases
+
+
+def gen_result_edits(rng, quick, universe):
+    """returned-container channel: the dicts digest()/hexdigest()/bytehexdigest() return are edited by the caller (pop,
+    overwrite, clear, add, swap) between further update()/copy()/digest calls; later results - on the same hasher, on a
+    copy, on a fresh hasher fed the same bytes - must be those of the bytes fed"""
+    cases = []
+    forms = ["bin", "hex", "bytehex"]
+    for k in range(60 if quick else 1500):
+        names = [a for a in universe if rng.random() < 0.4][:5] or [rng.choice(universe)]
+        rng.shuffle(names)
+        chunks = [rng.randbytes(rng.choice([0, 1, 2, 64, 200, 2048])).hex() for _ in range(rng.randrange(1, 6))]
+        total = sum(len(ch) // 2 for ch in chunks)
+        ops = [["n", names, total]]
+        live, nd = [0], 0
+        for ch in chunks:
+            for v in live:
+                ops.append(["u", v, ch])
+            if rng.random() < 0.65:
+                form = rng.choice(forms)
+                ops.append(["d", rng.choice(live), form])
+                nd += 1
+                if rng.random() < 0.85:
+                    ops.append(["m", rng.randrange(nd), rng.choice(EDITS)])      # usually the one just returned, sometimes an older one
+                if rng.random() < 0.6:                                            # a successive call without any update in between
+                    ops.append(["d", rng.choice(live), rng.choice([form, rng.choice(forms)])])
+                    nd += 1
+                    if rng.random() < 0.5:
+                        ops.append(["m", nd - 1, rng.choice(EDITS)])
+            if len(live) == 1 and rng.random() < 0.35:
+                ops.append(["c", 0])
+                live.append(1)
+                if rng.random() < 0.5 and nd:
+                    ops.append(["m", rng.randrange(nd), rng.choice(EDITS)])
+        for v in live:                                                            # at the end: every accessor on every hasher, each result edited
+            fs = forms[:]
+            rng.shuffle(fs)
+            for form in fs + [rng.choice(forms)]:
+                ops.append(["d", v, form])
+                ops.append(["m", nd, rng.choice(EDITS)])
+                nd += 1
+        tv = len(live)                                                            # a fresh hasher fed the same bytes
+        ops.append(["n", names, total])
+        ops += [["u", tv, ch] for ch in chunks]
+        ops += [["d", tv, rng.choice(forms)], ["d", 0, "bin"]]
+        cases.append({"kind": "script", "ops": ops})
+    return cases
+
+
+def gen_streams(rng, quick, universe):
+    """from_file on every stream class x every way of not being at position 0"""
+    cases = []
+    combos = [(cls, how) for cls, hows in sorted(STREAM_HOWS.items()) for how in hows]       # 44 combinations
+    big = [BLOCK, BLOCK + 1, 2 * BLOCK - 1, 2 * BLOCK + 17, 76808, 100000]
+    small = [0, 1, 2, 3, 9, 100, 4097]
+    for k in range((2 if quick else 40) * len(combos)):
+        cls, how = combos[k % len(combos)]
+        n = rng.choice(big) if rng.random() < (0.3 if quick else 0.5) else rng.choice(small + [rng.randrange(0, 9000)])
+        if cls == "mmap" and n == 0:
+            n = 1                                           # an empty file cannot be mapped
+        style = "text" if how == "readline" and rng.random() < 0.8 else rng.choice(["rand", "rand", "zero", "text"])
+        positions = [0, 1, n - 1, n, n // 2, rng.randrange(0, n + 1)]
+        if n > BLOCK:
+            positions += [BLOCK, BLOCK + 1, BLOCK + rng.randrange(1, n - BLOCK + 1), BLOCK - 1]   # inside the second block
+        if how in ("seek", "seek_cur", "write_seek") and cls != "mmap":
+            positions.append(n + rng.choice([1, 5, BLOCK]))                                        # beyond the end
+        p = max(0, rng.choice(positions))
+        if how == "seek_end" or cls == "mmap":
+            p = min(p, n)
+        c = {"kind": "stream", "data": gen_data(rng, n, style), "cls": cls, "how": how, "p": p}
+        if cls in ("raw", "buffered", "read", "both") and rng.random() < 0.4:
+            c["sched"] = gen_sched(rng, n)
+        r = rng.random()
+        if r < 0.3:
+            names = [a for a in universe if rng.random() < 0.5] or ["sha1"]
+            rng.shuffle(names)
+            c["names"] = names
+        r = rng.random()
+        if r < 0.15:
+            c["length"] = "whole"                           # the caller declares the size of the whole buffer
+        elif r < 0.25 and not any(a.endswith("_git") for a in (c.get("names") or ["sha1_git"])):
+            c["length"] = None
+        cases.append(c)
     return cases
 
 
@@ -1197,6 +1550,9 @@ def nontrivial(c):
         return fed >= 1 and (any(op[0] == "c" for op in c["ops"]) or sum(1 for op in c["ops"] if op[0] == "n") >= 2)
     if c["kind"] == "overlap":
         return len(c["parts"]) >= 2 and all(len(data_of(p["data"])) >= 1 for p in c["parts"])
+    if c["kind"] == "stream":
+        d = data_of(c["data"])
+        return len(remaining_of(c, d)) < len(d)             # the stream is not at position 0
     n = len(data_of(c["data"]))
     return n >= 1
 
@@ -1213,10 +1569,24 @@ def classify(c):
     ks = ["kind=" + c["kind"]]
     if c["kind"] == "script":
         ks.append("copies=%d" % min(3, sum(1 for op in c["ops"] if op[0] == "c")))
+        if any(op[0] == "m" for op in c["ops"]):
+            ks.append("returned-dict-edited")
+        for f in sorted({op[2] for op in c["ops"] if op[0] == "d" and len(op) > 2 and op[2] != "bin"}):
+            ks.append("accessor=" + f + "digest")
         if sum(1 for op in c["ops"] if op[0] == "n") >= 2:
             ks.append("interleaved-hashers")
         if c.get("buf"):
             ks.append("reused-caller-buffer")
+        return ks
+    if c["kind"] == "stream":
+        d = data_of(c["data"])
+        rem = remaining_of(c, d)
+        pos = len(d) - len(rem)
+        ks += ["stream=" + c["cls"], "positioned-by=" + c["how"],
+               "stream-pos=" + ("0" if pos == 0 and c["p"] == 0 else "beyond-end" if c["p"] > len(d) else "end" if not rem
+                               else "second-block+" if pos >= BLOCK else "inside")]
+        if c.get("length", "real") != "real":
+            ks.append("stream-length=" + str(c["length"]))
         return ks
     if c["kind"] == "overlap":
         ks += ["overlap=" + c["mode"], "overlap-when=" + c.get("when", "after"), "overlap-parts=%d" % len(c["parts"])]
@@ -1261,14 +1631,37 @@ def shrink(c):
     if c["kind"] == "script":
         ops = c["ops"]
         for k in range(len(ops) - 1, 0, -1):
-            if ops[k][0] in ("u", "d"):
+            if ops[k][0] in ("u", "m"):
                 yield dict(c, ops=ops[:k] + ops[k + 1:])
+            if ops[k][0] == "d":          # dropping a digest call renumbers the results the later edits refer to
+                rank = sum(1 for o in ops[:k] if o[0] == "d")
+                rest = [[o[0], o[1] - 1, o[2]] if o[0] == "m" and o[1] > rank else o for o in ops[k + 1:]
+                        if not (o[0] == "m" and o[1] == rank)]
+                yield dict(c, ops=ops[:k] + rest)
         for k, op in enumerate(ops):
             if op[0] == "u" and len(op[2]) > 2:
                 yield dict(c, ops=ops[:k] + [["u", op[1], op[2][:2]]] + ops[k + 1:])
             if op[0] == "n" and len(op[1]) > 1:
                 for a in op[1]:
                     yield dict(c, ops=ops[:k] + [["n", [a], op[2]]] + ops[k + 1:])
+        return
+    if c["kind"] == "stream":
+        d = data_of(c["data"])
+        for m in (2, 3, len(d) // 2, BLOCK + 2):
+            if (1 if c["cls"] == "mmap" else 0) < m < len(d):
+                for p in (1, m - 1, min(c["p"], m)):
+                    yield dict(c, data={"t": "hex", "v": d[:m].hex()} if m <= 4096 else
+                               {"t": "rep", "n": m, "h": d[:1].hex(), "p": d[1:2].hex() or "00", "e": d[-1:].hex()}, p=p)
+        for p in (1, c["p"] // 2):
+            if 0 < p < c["p"]:
+                yield dict(c, p=p)
+        for f in ("sched", "names", "length"):
+            if f in c:
+                c2 = dict(c)
+                del c2[f]
+                yield c2
+        if c["how"] != "seek" and "seek" in STREAM_HOWS[c["cls"]] and (c["cls"] != "mmap" or c["p"] <= len(d)):
+            yield dict(c, how="seek")
         return
     if c["kind"] == "overlap":
         parts = c["parts"]
